@@ -3,7 +3,9 @@ package p_kv
 import (
 	"context"
 	"fmt"
+	"github.com/acquirecloud/golibs/container/iterable"
 	"runtime"
+	"strings"
 	"sync"
 	"sync/atomic"
 	"testing"
@@ -352,6 +354,90 @@ func runSqueeze(pair string) *vstat.Violation {
 				return vstat.V("inmem:cas-resurrected", "CasByVersion and Delete forced to overlap: both succeeded and the record exists afterwards")
 			}
 		}
+	case "waitexpire-put":
+		// a waiter is parked on a record whose expiry passes while the storage mutex is held by the harness, with a Put queued on
+		// the mutex BEFORE the waiter's expiry timer fires: the Put is applied first, then the waiter's expiry handling runs.
+		// The Put's record (no expiry) must survive whatever the waiter does about the expired one.
+		e := time.Now().Add(30 * time.Millisecond)
+		r0, _ := st.Put(ctx, kvs.Record{Key: "k", Value: []byte("0"), ExpiresAt: &e})
+		wctx, cancel := context.WithCancel(ctx)
+		defer cancel()
+		done := make(chan error, 1)
+		go func() { done <- st.WaitForVersionChange(wctx, "k", r0.Version) }()
+		time.Sleep(time.Until(e.Add(-10 * time.Millisecond)))
+		putDone := make(chan error, 1)
+		lock(func() {
+			go func() {
+				_, err := st.Put(ctx, kvs.Record{Key: "k", Value: []byte("b")})
+				putDone <- err
+			}()
+			time.Sleep(time.Until(e.Add(6 * time.Millisecond)))
+		})
+		select {
+		case err := <-putDone:
+			if err != nil {
+				return vstat.V("inmem:undocumented-outcome:put", "Put returned %v", err)
+			}
+		case <-time.After(10 * time.Second):
+			return vstat.V("inmem:call-never-returns", "%s: the Put did not return within 10 s", pair)
+		}
+		select {
+		case err := <-done:
+			if err != nil && !gerrors.Is(err, gerrors.ErrNotExist) {
+				return vstat.V("inmem:wait-result", "the record expired and was then replaced while a waiter was parked on it; the waiter returned %v", err)
+			}
+		case <-time.After(5 * time.Second):
+			return vstat.V("inmem:wait-not-woken", "the record expired and was replaced by a Put; 5 s later the waiter of the old version is still blocked")
+		}
+		if r, err := st.Get(ctx, "k"); err != nil || string(r.Value) != "b" {
+			return vstat.V("inmem:fresh-record-dropped", "a Put (no expiry) was applied right after the expiry of the previous record of the key, on which a waiter was parked; afterwards Get returns (%q, %v) - the Put's record is gone", r.Value, err)
+		}
+	case "expired-get-put", "expired-getmany-put", "expired-list-put", "expired-create-put", "expired-cas-put", "expired-delete-put", "expired-get-create", "expired-getmany-create":
+		// the key holds an expired record; an operation that meets it is forced to overlap with a write of a fresh record
+		e := time.Now().Add(-time.Second)
+		r0, _ := st.Put(ctx, kvs.Record{Key: "k", Value: []byte("0"), ExpiresAt: &e})
+		st.Put(ctx, kvs.Record{Key: "k2", Value: []byte("other")})
+		var eA, eB error
+		parts := strings.Split(pair, "-")
+		completed := lockstepSqueeze(lock, func() {
+			switch parts[1] {
+			case "get":
+				_, eA = st.Get(ctx, "k")
+			case "getmany":
+				_, eA = st.GetMany(ctx, "k", "k2")
+			case "list":
+				var it iterable.Iterator[string]
+				if it, eA = st.ListKeys(ctx, "*"); eA == nil {
+					it.Close()
+				}
+			case "create":
+				_, eA = st.Create(ctx, kvs.Record{Key: "k", Value: []byte("a")})
+			case "cas":
+				_, eA = st.CasByVersion(ctx, kvs.Record{Key: "k", Value: []byte("a"), Version: r0.Version})
+			case "delete":
+				eA = st.Delete(ctx, "k")
+			}
+		}, func() {
+			if parts[2] == "create" {
+				_, eB = st.Create(ctx, kvs.Record{Key: "k", Value: []byte("b")})
+			} else {
+				_, eB = st.Put(ctx, kvs.Record{Key: "k", Value: []byte("b")})
+			}
+		})
+		if !completed {
+			return vstat.V("inmem:call-never-returns", "%s forced to overlap: one of the two calls did not return within 10 s", pair)
+		}
+		if eB != nil && !(parts[2] == "create" && parts[1] == "create" && gerrors.Is(eB, gerrors.ErrExist)) {
+			return vstat.V("inmem:write-over-expired-failed", "%s: the write of the fresh record over an expired one returned %v", pair, eB)
+		}
+		r, err := st.Get(ctx, "k")
+		deleted := parts[1] == "delete" && eA == nil // Delete ran after the write and removed the fresh record: legitimate
+		if !deleted && err != nil {
+			return vstat.V("inmem:fresh-record-dropped", "%s forced to overlap on a key that held an expired record: the fresh record (no expiry) was written successfully, %s returned %v, and afterwards Get returns %v - the fresh record was dropped", pair, parts[1], eA, err)
+		}
+		if err == nil && string(r.Value) == "0" {
+			return vstat.V("inmem:expired-record-visible", "%s: Get returns the expired record", pair)
+		}
 	case "wait-put", "wait-cas", "wait-delete", "wait-putmany":
 		r0, _ := st.Put(ctx, kvs.Record{Key: "k", Value: []byte("0")})
 		done := make(chan error, 1)
@@ -393,6 +479,8 @@ func runSqueeze(pair string) *vstat.Violation {
 
 var squeezePairs = []string{"create-create", "create-put", "cas-cas", "cas-put", "cas-delete", "wait-put", "wait-cas", "wait-delete", "wait-putmany"}
 
+var expiredPairs = []string{"expired-get-put", "expired-getmany-put", "expired-list-put", "expired-create-put", "expired-cas-put", "expired-delete-put", "expired-get-create", "expired-getmany-create", "waitexpire-put"}
+
 func testSqueeze(t *testing.T, prop string, pairs []string) {
 	if !hooksOn {
 		t.Skip("inmem hooks unavailable")
@@ -408,5 +496,8 @@ func testSqueeze(t *testing.T, prop string, pairs []string) {
 	}
 }
 
-func TestC02Squeeze(t *testing.T) { testSqueeze(t, "C02", squeezePairs[:5]) }
+func TestC02Squeeze(t *testing.T) {
+	testSqueeze(t, "C02", append(append([]string{}, squeezePairs[:5]...), "waitexpire-put", "expired-get-put", "expired-getmany-put"))
+}
+func TestC06Squeeze(t *testing.T) { testSqueeze(t, "C06", expiredPairs) }
 func TestC07Squeeze(t *testing.T) { testSqueeze(t, "C07", squeezePairs[5:]) }
